@@ -18,6 +18,20 @@ INVOKED_PROCEDURE_NAMES = re.compile(r'(?i)\s*RUN\s+(\w+)(?=[^"]*(?:"[^"]*"[^"]*
 STR_STORAGE_TAG = re.compile(r'(?i)\:\s*STRING\<\<\>\>(?=[^"]*(?:"[^"]*"[^"]*)*$)')
 
 
+def _code_part(line: str) -> str:
+    """
+    Returns the part of a BASIC09 line that precedes its (* comment, if any.
+    A (* inside of a string literal does not start a comment.
+    """
+    in_str_literal = False
+    for ii, ch in enumerate(line):
+        if ch == '"':
+            in_str_literal = not in_str_literal
+        elif not in_str_literal and line.startswith("(*", ii):
+            return line[:ii]
+    return line
+
+
 class ProcedureBank(object):
     """
     This class is responsible for loading BASIC09 procedures from a file,
@@ -60,7 +74,7 @@ class ProcedureBank(object):
                 name = match[1]
                 name_to_procedure_array[name] = current_procedure
             current_procedure.append(line)
-            invoked_names = INVOKED_PROCEDURE_NAMES.findall(line)
+            invoked_names = INVOKED_PROCEDURE_NAMES.findall(_code_part(line))
             self._name_to_dependencies[name].update(invoked_names)
 
         for name, procedure in name_to_procedure_array.items():
